@@ -1211,8 +1211,8 @@ func generate(r *hxlib.Run, emit func(hxlib.Case)) {
 	for si, n := range allSizes {
 		huge := n >= 1<<20
 		for fi, fm := range formats {
-			if huge && !r.Thorough && fi != (rot+si)%len(formats) {
-				continue // 1 MiB: one format per run in the quick tier
+			if huge && ((!r.Thorough && fi != (rot+si)%len(formats)) || (r.Thorough && (fi+rot+si)%4 != 0)) {
+				continue // 1 MiB and more: one format per run in the quick tier, a rotating quarter in the thorough tier
 			}
 			for _, deleted := range []bool{true, false} {
 				// round trip
@@ -1290,7 +1290,7 @@ func generate(r *hxlib.Run, emit func(hxlib.Case)) {
 				if !deleted && !r.Thorough && (huge || (si+fi+rot)%3 != 0) {
 					continue
 				}
-				if huge && !r.Thorough && fi != (rot+si)%len(typedFormats) {
+				if huge && ((!r.Thorough && fi != (rot+si)%len(typedFormats)) || (r.Thorough && (fi+rot+si)%4 != 0)) {
 					continue
 				}
 				seed := seedFor(fm)
